@@ -32,6 +32,7 @@ RULE = (
 )
 RULE += '; items may be None / falsy values; a quarter of the cases run a garbage collection before every pull'
 RULE += '; a second stream of a same-named generator may be created in the same scope and exhausted first'
+RULE += "; the streamed generator receives keyword arguments named like a wrapper's own parameters"
 LEVEL_TEXT = (
     "Four sub-claims per generated case: (a) the consumer receives exactly the items then the generator's end or its "
     "exception object; (b) probes inside the generator equal the creation environment; (c) the consumer's context "
@@ -97,6 +98,16 @@ def _item(tag, i, case):
     return (tag, i)
 
 
+# keyword arguments of the streamed generator with names a wrapper might want for itself
+_GEN_KWARGS = [
+    {},
+    {"name": "n", "label": "l"},
+    {"source": 1, "scope": 2, "state": 3},
+    {"completion": None, "logger": "lg", "trace_id": "t", "disposables": ()},
+    {"self": 0, "cls": 1, "args": (1,), "kwargs": {"k": 1}},
+]
+
+
 def run_case(case) -> Outcome:  # noqa: C901, PLR0912, PLR0915
     out = Outcome()
     n, end, consume, mode = case["items"], case["end"], case["consume"], case["mode"]
@@ -145,7 +156,8 @@ def run_case(case) -> Outcome:  # noqa: C901, PLR0912, PLR0915
             yield "n0"
             yield "n1"
 
-        async def gen(tag):
+        async def gen(tag, **kw):
+            obs["gen_kwargs"] = kw  # keyword arguments belong to the generator, whatever they are called
             for i in range(n):
                 obs["gen_probes"].append((i, K.fp()["state"]))
                 if case.get("gen_nested"):
@@ -276,7 +288,7 @@ def run_case(case) -> Outcome:  # noqa: C901, PLR0912, PLR0915
             async with ctx.scope("root", completion=root_completed):
                 async with ctx.scope("X", K.state("A", 1), completion=x_completed):
                     holder["creation_fp"] = K.fp()["state"]
-                    holder["s"] = ctx.stream(gen, "s")
+                    holder["s"] = ctx.stream(gen, "s", **_GEN_KWARGS[case.get("gen_kwargs", 0) % len(_GEN_KWARGS)])
                     if case.get("twin"):
                         holder["s2"] = ctx.stream(_twin)
                     if consume == "same":
@@ -289,7 +301,7 @@ def run_case(case) -> Outcome:  # noqa: C901, PLR0912, PLR0915
         elif create_in == "X":
             async with ctx.scope("X", K.state("A", 1), completion=x_completed):
                 holder["creation_fp"] = K.fp()["state"]
-                holder["s"] = ctx.stream(gen, "s")
+                holder["s"] = ctx.stream(gen, "s", **_GEN_KWARGS[case.get("gen_kwargs", 0) % len(_GEN_KWARGS)])
                 if case.get("twin"):
                     holder["s2"] = ctx.stream(_twin)
                 if consume == "same":
@@ -304,7 +316,7 @@ def run_case(case) -> Outcome:  # noqa: C901, PLR0912, PLR0915
                 await run_consumer(holder["s"])
         else:
             holder["creation_fp"] = {"A": ("sentinel", "A"), "B": ("sentinel", "B")}
-            holder["s"] = ctx.stream(gen, "s")
+            holder["s"] = ctx.stream(gen, "s", **_GEN_KWARGS[case.get("gen_kwargs", 0) % len(_GEN_KWARGS)])
             await run_consumer(holder["s"])
         if mode == "abandon" and obs["end"] == "abandoned":
             del holder["s"]
@@ -398,6 +410,9 @@ def run_case(case) -> Outcome:  # noqa: C901, PLR0912, PLR0915
     terminal = obs["end"] in ("stop", "closed", "timed_out") or isinstance(obs["end"], tuple) or obs["end"] == "abandoned"
     unstarted = "unstarted" if (not obs["gen_probes"] and mode not in ("full", "timeout")) else "started"
     if terminal and obs["err"] is None:
+        want_kw = _GEN_KWARGS[case.get("gen_kwargs", 0) % len(_GEN_KWARGS)]
+        if "gen_kwargs" in obs and obs["gen_kwargs"] != want_kw:
+            out.violate("a", f"C11.a/generator-arguments-changed/{tag}", f"generator received {obs['gen_kwargs']!r}, stream was given {want_kw!r}")
         twin = 1 if obs.get("twin") is not None else 0
         if twin and obs["twin"] != [("twin", 0), ("twin", 1)]:
             out.violate("a", f"C11.a/second-stream-of-the-scope-disturbed/{tag}", f"{obs['twin']!r}")
@@ -448,6 +463,8 @@ def strategy(tier):
             # a garbage collection before every pull: a scope that was left and waits for the stream is held by the stream alone
             "gc_mid": (n + ba) % 4 == 1,
             "twin": ci in ("X", "XX") and (n + 2 * ba) % 3 == 1,
+            "gen_kwargs": (n * 3 + ba) % 7,  # indices 5, 6 wrap to {} and the first set again
+
         },  # fmt: skip
         st.one_of(st.integers(0, 4), st.integers(0, 4), st.integers(5, 14)),  # also long streams (many nested scopes / records)
         st.sampled_from(["stop", "stop", "raise"]),
